@@ -159,6 +159,20 @@ def two_app_family():
                              'muts': [{'t': 'AddField', 'model': 'Alpha', 'field': 'c', 'ftype': 'CharField',
                                        'initial': None, 'attrs': [['max_length', '30'], ['null', 'true']]}]}],
              'rows': False, 'family': 'two-apps-not-alphabetical'},
+            # ... and both apps have pending evolutions, the first app's LATER one waiting for the second app's
+            {'spec0': {'apps': [{'id': 'vapp', 'models': [v0]}, {'id': 'lapp', 'models': [l0]}]},
+             'spec1': {'apps': [{'id': 'vapp', 'models': [m('vapp', 'Alpha', [fld('a', 'IntegerField', null=True),
+                                                                              fld('b', 'IntegerField', null=True),
+                                                                              fld('c', 'CharField', max_length=30, null=True)])]},
+                                {'id': 'lapp', 'models': [l1]}]},
+             'muts': [add('Alpha', 'b'), {'t': 'AddField', 'model': 'Alpha', 'field': 'c', 'ftype': 'CharField',
+                                          'initial': None, 'attrs': [['max_length', '30'], ['null', 'true']]}],
+             'evolutions': [{'label': 'e1', 'muts': [add('Alpha', 'b')]},
+                            {'label': 'e2', 'after_evolutions': [('lapp', 'e1')],
+                             'muts': [{'t': 'AddField', 'model': 'Alpha', 'field': 'c', 'ftype': 'CharField',
+                                       'initial': None, 'attrs': [['max_length', '30'], ['null', 'true']]}]}],
+             'extra_evolutions': {'lapp': [add('Thing', 'u')]},
+             'rows': False, 'family': 'two-apps-not-alphabetical'},
             # ... and the second app is up to date, with raw SQL in an evolution applied long ago: nothing of that is
             # previewed or executed when the first app is upgraded
             {'spec0': {'apps': [{'id': 'vapp', 'models': [v0]}, {'id': 'lapp', 'models': [l0]}]},
